@@ -212,6 +212,18 @@ STRUCTURED.append(('same-section references in [Tabulation] (drho : ${dr}) and [
 STRUCTURED.append(('same-section references with like-named variables present',
                    '[Variables]\ndr : 0.002\nAl : as.zero\n\n' + _E % ('${dr}', '${Al}'), _E % ('0.5', '>=0 as.polynomial 0.1 -1.0 0.01'), []))
 
+# a variable nothing refers to is substituted nowhere: its own value need not be resolvable in this file (a library of definitions shared by several models)
+STRUCTURED.append(('an unreferenced variable whose own value refers to a section this file does not have',
+                   '[Variables]\nrho : 0.3\nGd_mass : ${Species:Gd.atomic_mass}\nunused_chain : ${Gd_mass} ${nosuch}\n\n' + _P + '[Pair]\nO-O : as.buck 1000.0 ${rho} 32.0\nU-O : as.lj 0.2 2.5\n',
+                   _P + '[Pair]\nO-O : as.buck 1000.0 0.3 32.0\nU-O : as.lj 0.2 2.5\n', []))
+# blanks inside the braces: keys are blank-insensitive and so are the names in placeholders
+STRUCTURED.append(('placeholders spelt with blanks inside the braces',
+                   '[Variables]\nrho : 0.3\nA : 1000.0\n\n[Species]\nGd.charge : 3.0\n\n' + _P + '[Pair]\nO-O : as.buck ${ A } ${rho } 32.0\nU-O : as.buck ${Species: Gd.charge} ${ rho} 0.0\nGd-O : cb ${Variables: A} 0.35\n\n[Potential-Form]\ncb(r, A, rho) : A*exp(-r/rho)\n',
+                   '[Species]\nGd.charge : 3.0\n\n' + _P + '[Pair]\nO-O : as.buck 1000.0 0.3 32.0\nU-O : as.buck 3.0 0.3 0.0\nGd-O : cb 1000.0 0.35\n\n[Potential-Form]\ncb(r, A, rho) : A*exp(-r/rho)\n', []))
+STRUCTURED.append(('a placeholder naming a key that is written with blanks (a formula signature, a density pair)',
+                   '[Variables]\nsame : ${Potential-Form:cb(r, A, rho)}\n\n' + _P + '[Pair]\nO-O : cb 1000.0 0.3\nU-O : cb2 900.0 0.3\n\n[Potential-Form]\ncb(r, A, rho) : A*exp(-r/rho)\ncb2(r, A, rho) : ${same} + 1/r\n',
+                   _P + '[Pair]\nO-O : cb 1000.0 0.3\nU-O : cb2 900.0 0.3\n\n[Potential-Form]\ncb(r, A, rho) : A*exp(-r/rho)\ncb2(r, A, rho) : A*exp(-r/rho) + 1/r\n', []))
+
 
 def observe(text, binary, overrides=()):
     from atsim.potentials.config import ConfigParser, Configuration
